@@ -28,6 +28,8 @@ func initTimeReason(fn *ssa.Function) string {
 		return "instance initialisation"
 	case n == "(*ab.Events).Before" || n == "(*ab.Events).After":
 		return "handler registration (documented: during Init/Setup)"
+	case strings.HasPrefix(n, "(*ab.Events).") && !hasRequestParams(fn) && takesHandler(fn):
+		return "handler registration (a method of Events that is handed a handler to keep)"
 	case base == "Init" || base == "Setup" || n == "ab/otp/twofactor.SetupEmailVerify" || n == "ab/defaults.SetCore":
 		return "module Init/Setup"
 	case n == "ab/defaults.NewRouter" || n == "ab/defaults.NewLogger" || n == "ab/defaults.NewResponder" || n == "ab/defaults.NewRedirector" || n == "ab/defaults.NewHTTPBodyReader" || n == "ab/defaults.NewSMTPMailer" || n == "ab/defaults.NewLogMailer" || n == "ab/defaults.NewErrorHandler" || n == "ab.NewBCryptHasher" || n == "ab.NewSha512TokenGenerator":
@@ -38,6 +40,16 @@ func initTimeReason(fn *ssa.Function) string {
 		return "middleware/handler constructor: runs when the handler chain is wired, returns the per-request handler"
 	}
 	return ""
+}
+
+// takesHandler: one of the parameters is a function value (a handler to register).
+func takesHandler(fn *ssa.Function) bool {
+	for _, p := range fn.Params[1:] {
+		if _, ok := p.Type().Underlying().(*types.Signature); ok {
+			return true
+		}
+	}
+	return false
 }
 
 // isWiringLayer: a function without request parameters whose result is an
@@ -442,6 +454,88 @@ func fillsBufferArg(call *ssa.Call) int {
 	return -1
 }
 
+// optionOnFreshObject: fn is a closure func(*T) that its parent returns as a
+// value of a named function type, and every call of a value of that type in
+// the repository passes an object allocated in the calling function (the
+// constructor applying its options).
+func (c *Ctx) optionOnFreshObject(fn *ssa.Function) bool {
+	par := fn.Parent()
+	if par == nil || len(fn.Params) != 1 || fn.Signature.Results().Len() != 0 {
+		return false
+	}
+	if _, isPtr := fn.Params[0].Type().Underlying().(*types.Pointer); !isPtr {
+		return false
+	}
+	res := par.Signature.Results()
+	if res.Len() != 1 {
+		return false
+	}
+	named, ok := res.At(0).Type().(*types.Named)
+	if !ok {
+		return false
+	}
+	if _, isSig := named.Underlying().(*types.Signature); !isSig {
+		return false
+	}
+	returned := false
+	for _, b := range par.Blocks {
+		for _, in := range b.Instrs {
+			ret, isRet := in.(*ssa.Return)
+			if !isRet || len(ret.Results) != 1 {
+				continue
+			}
+			v := ret.Results[0]
+			if ct, isCT := v.(*ssa.ChangeType); isCT {
+				v = ct.X
+			}
+			if mc, isMC := v.(*ssa.MakeClosure); isMC && mc.Fn == ssa.Value(fn) {
+				returned = true
+			}
+		}
+	}
+	if !returned {
+		return false
+	}
+	for _, g := range c.P.Funcs {
+		for _, call := range Calls(g) {
+			cc := call.Common()
+			if cc.IsInvoke() || StaticCallee(call) != nil || !types.Identical(cc.Value.Type().Underlying(), named.Underlying()) || len(cc.Args) != 1 {
+				continue
+			}
+			a := cc.Args[0]
+			for d := 0; d < 4; d++ {
+				if fa, isFA := a.(*ssa.FieldAddr); isFA {
+					a = fa.X
+					continue
+				}
+				break
+			}
+			if ld, isLd := a.(*ssa.UnOp); isLd && ld.Op == token.MUL {
+				// a local variable holding the pointer
+				if cell, isCell := ld.X.(*ssa.Alloc); isCell && cell.Referrers() != nil {
+					for _, ref := range *cell.Referrers() {
+						if st, isSt := ref.(*ssa.Store); isSt && st.Addr == ssa.Value(cell) {
+							a = st.Val
+						}
+					}
+				}
+			}
+			// ... or has just obtained from a constructor
+			if ic, _ := CallOf(a); ic != nil {
+				if g := StaticCallee(ic); g != nil && initTimeReason(g) != "" {
+					continue
+				}
+			}
+			if _, fresh := a.(*ssa.Alloc); !fresh {
+				return false
+			}
+		}
+	}
+	// no site left: the applying loop was folded away where the constructor is
+	// inlined with no options — nothing in the library applies the option later
+	return true
+}
+
 // sharedWrite returns a description when addr is rooted in shared state.
 func (c *Ctx) sharedWrite(fn *ssa.Function, addr ssa.Value) string {
 	for _, ro := range c.rootOf(addr, 0) {
@@ -450,6 +544,11 @@ func (c *Ctx) sharedWrite(fn *ssa.Function, addr ssa.Value) string {
 			return "package-level variable " + ro.name
 		case "param":
 			p := ro.v.(*ssa.Parameter)
+			// a functional option: the closure is applied by a constructor to the
+			// object it has just allocated
+			if c.optionOnFreshObject(fn) {
+				continue
+			}
 			// the receiver / a parameter of shared type reached through a field or element
 			if s := isSharedStruct(p.Type()); s != "" && addr != ssa.Value(p) {
 				// writes into a by-value receiver copy are local
